@@ -1,11 +1,12 @@
-"""tr_helpers: which methods of the binding classes (neuroml/nml/nml.py, read with `ast`, never imported) are read-only by their
-name - __str__, __repr__, __eq__, __ne__, summary, info, and everything starting with get_ / _get_ / is_ / has_ - and what each of
-them WRITES on the instance: `self.X = / += / del` (any target rooted at self), any mention of `self.__dict__`, setattr / delattr /
-vars / object.__setattr__ on self, and mutator calls (.append/.extend/.insert/.remove/.pop/.clear/.update/.setdefault/.sort/.reverse/
-.add/.discard/.popitem/.__setitem__) on an expression rooted at self.  add() decides "an equal child is already present" with
-__eq__, which compares the instance dictionaries: a read-only call that leaves something on the instance changes that verdict.
-Output (stdout or argv[1]): JSON {"writes": [[class, method, [write, ...]], ...] (only non-empty), "readers": {class: [zero-argument
-read-only hand-written methods]}, "counted": n, "errors": []}."""
+"""tr_helpers: C20 translator.  Reads (never imports the package)
+     neuroml/nml/helper_methods.py   (executed by path; MethodSpecs interpolated exactly as generateDS does)
+     neuroml/nml/nml.py              (ast)
+     neuroml/nml/NeuroML_<current>.xsd, neuroml/__version__.py, neuroml/writers.py, regenerate-nml.sh
+and emits a JSON table (stdout, last line) that checks/c20.py turns into Gen_C20.v.
+
+Canonical form of a method = [signature] + [ast.unparse(stmt) for stmt in body without the docstring].
+Fail closed: anything unexpected raises -> the check records a broken translate obligation.
+"""
 import ast
 import json
 import os
@@ -13,93 +14,217 @@ import re
 import sys
 
 REPO = os.environ.get("VERIF_REPO", "/repo")
-READ_ONLY = re.compile(r"^(__str__|__repr__|__eq__|__ne__|summary|info|parentinfo|(get_|_get_|is_|has_|_has_|_is_).*)$")
-MUTATORS = {"append", "extend", "insert", "remove", "pop", "clear", "update", "setdefault", "sort", "reverse", "add", "discard",
-            "popitem", "__setitem__", "__delitem__", "__setattr__", "__delattr__"}
+NML = os.path.join(REPO, "neuroml", "nml")
+
+# methods generateDS itself emits into every class (everything else in a class body must come from a MethodSpec)
+TEMPLATE = {
+    "__init__", "factory", "has__content", "export", "_exportAttributes", "_exportChildren",
+    "validate_", "build", "_buildAttributes", "_buildChildren", "get_ns_prefix_", "set_ns_prefix_",
+}
 
 
-def src(n):
-    return " ".join(ast.unparse(n).split())[:120].encode("ascii", "backslashreplace").decode()
+TEMPLATE_ASSIGN = {"__hash__", "subclass", "superclass", "member_data_items_", "__slots__", "factory"}
 
 
-def rooted_at_self(e):
-    while isinstance(e, (ast.Attribute, ast.Subscript, ast.Starred)):
-        e = e.value
-    return isinstance(e, ast.Name) and e.id == "self"
+def canon_func(fn):
+    body = list(fn.body)
+    if body and isinstance(body[0], ast.Expr) and isinstance(getattr(body[0], "value", None), ast.Constant) \
+            and isinstance(body[0].value.value, str):
+        body = body[1:]
+    sig = "def %s(%s)" % (fn.name, ast.unparse(fn.args))
+    if fn.decorator_list:
+        sig = " ".join("@" + ast.unparse(d) for d in fn.decorator_list) + " " + sig
+    if fn.returns is not None:
+        sig += " -> " + ast.unparse(fn.returns)
+    out = [sig]
+    for st in body:
+        out.append(ast.unparse(st))
+    return [s.encode("ascii", "backslashreplace").decode() for s in out]
 
 
-def writes(fn):
-    out = []
-    for n in ast.walk(fn):
-        targets = []
-        if isinstance(n, ast.Assign):
-            targets = n.targets
-        elif isinstance(n, (ast.AugAssign, ast.AnnAssign)):
-            targets = [n.target]
-        elif isinstance(n, ast.Delete):
-            targets = n.targets
-        elif isinstance(n, (ast.For, ast.AsyncFor)):
-            targets = [n.target]
-        elif isinstance(n, (ast.With, ast.AsyncWith)):
-            targets = [i.optional_vars for i in n.items if i.optional_vars is not None]
-        for t in targets:
-            for x in ([t] if not isinstance(t, (ast.Tuple, ast.List)) else list(ast.walk(t))):
-                if isinstance(x, (ast.Attribute, ast.Subscript)) and rooted_at_self(x):
-                    out.append("assigns " + src(x))
-        if isinstance(n, ast.Attribute) and n.attr == "__dict__" and rooted_at_self(n):
-            out.append("uses self.__dict__")
-        if isinstance(n, ast.Call):
-            f = n.func
-            if isinstance(f, ast.Name) and f.id in ("setattr", "delattr", "vars") and n.args and rooted_at_self(n.args[0]):
-                out.append("%s(self, ..)" % f.id)
-            if isinstance(f, ast.Attribute) and f.attr in ("__setattr__", "__delattr__") and n.args and rooted_at_self(n.args[0]):
-                out.append(src(f) + "(self, ..)")
-            if isinstance(f, ast.Attribute) and f.attr in MUTATORS and rooted_at_self(f.value) and not (
-                    isinstance(f.value, ast.Name)):
-                out.append("calls " + src(f))
-    return sorted(set(out))
-
-
-def zero_arg(fn):
-    a = fn.args
-    pos = a.posonlyargs + a.args
-    return len(pos) - len(a.defaults) <= 1 and all(d is not None for d in a.kw_defaults)
-
-
-def translate(path):
-    errors = []
-    res = {"writes": [], "readers": {}, "counted": 0, "errors": errors}
-    try:
-        tree = ast.parse(open(path).read())
-    except Exception as e:  # noqa
-        errors.append("nml.py: %s" % e)
-        return res
-    for c in tree.body:
-        if not isinstance(c, ast.ClassDef):
-            continue
-        members = set()
-        for f in c.body:      # generated accessors: get_<member> exists together with set_<member>
-            if isinstance(f, ast.FunctionDef) and f.name.startswith("set_"):
-                members.add(f.name[4:])
-        for f in c.body:
-            if not isinstance(f, (ast.FunctionDef, ast.AsyncFunctionDef)) or not READ_ONLY.match(f.name):
+def class_items(body, skip_template):
+    """ordered [(name, canon)] of the function definitions (and other non-template statements) of a class body"""
+    items = []
+    for st in body:
+        if isinstance(st, (ast.FunctionDef, ast.AsyncFunctionDef)):
+            if skip_template and (st.name in TEMPLATE or is_st_validator(st)):
                 continue
-            res["counted"] += 1
-            w = writes(f)
-            if w:
-                res["writes"].append([c.name, f.name, w])
-            generated = f.name.startswith("get_") and f.name[4:] in members
-            if (not generated and zero_arg(f) and not f.name.startswith("__e") and f.name not in ("__ne__", "info", "parentinfo")
-                    and not f.name.startswith("has__") and not f.name.startswith("_")) or f.name in ("__str__", "__repr__"):
-                res["readers"].setdefault(c.name, []).append(f.name)
-    if res["counted"] < 100:
-        errors.append("only %d read-only methods found" % res["counted"])
-    return res
+            items.append([st.name, canon_func(st)])
+        elif isinstance(st, ast.Expr) and isinstance(st.value, ast.Constant):
+            continue
+        elif skip_template and isinstance(st, ast.Assign) and len(st.targets) == 1 and isinstance(st.targets[0], ast.Name) \
+                and (st.targets[0].id in TEMPLATE_ASSIGN or re.fullmatch(r"validate_\w+_patterns_", st.targets[0].id)):
+            continue  # class-level assignments generateDS itself emits
+        elif isinstance(st, ast.Pass):
+            continue
+        else:
+            items.append(["<stmt>", [ast.unparse(st).encode("ascii", "backslashreplace").decode()]])
+    return items
+
+
+def is_st_validator(fn):
+    # generateDS simple-type validators: def validate_<Name>(self, value)
+    if not fn.name.startswith("validate_") or fn.name == "validate_":
+        return False
+    a = fn.args
+    return [x.arg for x in a.args] == ["self", "value"] and not a.kwonlyargs and a.vararg is None
+
+
+def main():
+    out = {}
+    # ---- helper_methods.py, executed by path ------------------------------------------------
+    hp = os.path.join(NML, "helper_methods.py")
+    ns = {"__name__": "helper_methods_under_verification", "__file__": hp}
+    src = open(hp).read()
+    exec(compile(src, hp, "exec"), ns)
+    specs = ns["METHOD_SPECS"]
+    nml_tree = ast.parse(open(os.path.join(NML, "nml.py")).read())
+    classes = [n for n in nml_tree.body if isinstance(n, ast.ClassDef)]
+    binding_classes = []
+    for c in classes:
+        names = [b.targets[0].id for b in c.body if isinstance(b, ast.Assign) and len(b.targets) == 1
+                 and isinstance(b.targets[0], ast.Name)]
+        if "member_data_items_" in names:
+            binding_classes.append(c)
+    src_tab, nml_tab = [], []
+    for c in binding_classes:
+        items = []
+        for sp in specs:
+            if sp.match_name(c.name):
+                text = sp.get_interpolated_source({"class_name": c.name})
+                tree = ast.parse("class _C:\n    pass\n" + text)
+                items.extend(class_items(tree.body[0].body, skip_template=False))
+        if items:
+            src_tab.append([c.name, items])
+        nitems = class_items(c.body, skip_template=True)
+        if nitems:
+            nml_tab.append([c.name, nitems])
+    # specs naming a class that does not exist
+    all_names = {c.name for c in binding_classes}
+    dangling = []
+    for sp in specs:
+        cn = sp.class_names if isinstance(sp.class_names, list) else [sp.class_names]
+        for n in cn:
+            if n not in all_names:
+                dangling.append([sp.name, n])
+    out["src"] = src_tab
+    out["nml"] = nml_tab
+    out["dangling_specs"] = dangling
+    out["binding_classes"] = sorted(all_names)
+    # the public export list: `from .nml.nml import *` in neuroml/__init__.py only sees what __all__ names
+    exported = None
+    for n in nml_tree.body:
+        if isinstance(n, ast.Assign) and len(n.targets) == 1 and isinstance(n.targets[0], ast.Name) and n.targets[0].id == "__all__":
+            exported = [e.value for e in n.value.elts if isinstance(e, ast.Constant)] if isinstance(n.value, (ast.List, ast.Tuple)) else None
+    init_src = open(os.path.join(REPO, "neuroml", "__init__.py")).read()
+    star = bool(re.search(r"^from \.nml\.nml import \*", init_src, re.M))
+    if exported is None:
+        # no __all__: a star import exports every public name
+        exported = sorted(all_names)
+    out["exported_classes"] = sorted(x for x in exported if x in all_names) if star else []
+    # ---- versions / schema names ------------------------------------------------------------
+    vt = ast.parse(open(os.path.join(REPO, "neuroml", "__version__.py")).read())
+    cur = None
+    for n in ast.walk(vt):
+        if isinstance(n, (ast.Assign, ast.AnnAssign)):
+            tgt = n.targets[0] if isinstance(n, ast.Assign) else n.target
+            if isinstance(tgt, ast.Name) and tgt.id == "current_neuroml_version" and isinstance(n.value, ast.Constant):
+                cur = n.value.value
+    if cur is None:
+        raise SystemExit("translate:__version__.py: current_neuroml_version not a literal")
+    out["current"] = cur
+    head = open(os.path.join(NML, "nml.py")).read(4000)
+    m = re.search(r"# Command line arguments:\n#\s+(\S+)\n", head)
+    out["header_schema"] = m.group(1) if m else ""
+    w = open(os.path.join(REPO, "neuroml", "writers.py")).read()
+    wt = ast.parse(w)
+    wschema = None
+    for n in ast.walk(wt):
+        if isinstance(n, ast.Constant) and isinstance(n.value, str) and "schemaLocation" in n.value:
+            mm = re.search(r"NeuroML2/(NeuroML_%s\.xsd)", n.value)
+            if mm:
+                wschema = mm.group(1)
+    # the %s is filled with neuroml.current_neuroml_version: check the BinOp
+    fills_current = bool(re.search(r"%\s*\(?\s*neuroml\.current_neuroml_version", w))
+    out["writer_schema"] = (wschema or "").replace("%s", cur) if fills_current else (wschema or "")
+    rs = open(os.path.join(NML, "regenerate-nml.sh")).read()
+    m1 = re.search(r"SCHEMA_FILE=(\S+)", rs)
+    m2 = re.search(r"NEUROML_VERSION=\$\(grep -E 'current_neuroml_version\.\*' \.\./__version__\.py", rs)
+    out["regen_schema"] = m1.group(1).replace("${NEUROML_VERSION}", cur) if (m1 and m2) else (m1.group(1) if m1 else "")
+    uses_helpers = "--user-methods=helper_methods.py" in rs
+    out["regen_uses_helper_methods"] = uses_helpers
+    # ---- complex types of the bundled schema -------------------------------------------------
+    xsd = os.path.join(NML, "NeuroML_%s.xsd" % cur)
+    out["schema_exists"] = os.path.exists(xsd)
+    cts = []
+    if out["schema_exists"]:
+        from lxml import etree
+        t = etree.parse(xsd)
+        XS = "{http://www.w3.org/2001/XMLSchema}"
+        for e in t.getroot():
+            if e.tag == XS + "complexType":
+                cts.append(e.get("name"))
+    out["complex_types"] = sorted(cts)
+    # ---- the name table generateDS applies at regeneration (generateds_config.py executed by path in a scratch dir,
+    #      with the tree's own config.py and schema files) against the shipped name_table.csv and the member names in nml.py
+    import csv
+    import keyword
+    import shutil
+    import subprocess
+    import tempfile
+    regen_table, regen_err = None, ""
+    scratch = tempfile.mkdtemp(prefix="verif_c20_")
+    try:
+        for fn in os.listdir(NML):
+            if fn.endswith(".xsd") or fn in ("generateds_config.py", "config.py"):
+                shutil.copy(os.path.join(NML, fn), scratch)
+        code = ("import sys, json; sys.path.insert(0, '/venv/bin'); sys.path.insert(0, %r); import generateds_config as g; "
+                "print('NAMETABLE' + json.dumps(g.NameTable))" % scratch)
+        pr = subprocess.run([sys.executable, "-c", code], cwd=scratch, capture_output=True, text=True, timeout=300)
+        for line in pr.stdout.splitlines():
+            if line.startswith("NAMETABLE"):
+                regen_table = json.loads(line[len("NAMETABLE"):])
+        if regen_table is None:
+            regen_err = (pr.stderr or pr.stdout)[-500:]
+    except Exception as e:  # fail closed
+        regen_err = repr(e)
+    finally:
+        shutil.rmtree(scratch, ignore_errors=True)
+    shipped_table = {}
+    nt = os.path.join(NML, "name_table.csv")
+    if os.path.exists(nt):
+        for r in csv.reader(open(nt)):
+            if len(r) == 2:
+                shipped_table[r[0]] = r[1]
+    out["name_table_regen"] = sorted(regen_table.items()) if regen_table is not None else [["<generateds_config failed>", regen_err]]
+    out["name_table_shipped"] = sorted(shipped_table.items())
+    # members of the shipped bindings must carry the names the table prescribes (python name = table[xml name],
+    # keyword-suffixed with '_' or, for an attribute clashing with a child element, with '_attr')
+    viol = []
+    tab = regen_table or {}
+    for c in binding_classes:
+        for b in c.body:
+            if isinstance(b, ast.Assign) and getattr(b.targets[0], "id", "") == "member_data_items_" and isinstance(b.value, ast.List):
+                for e in b.value.elts:
+                    try:
+                        a = [ast.literal_eval(x) for x in e.args]
+                    except Exception:
+                        continue
+                    py = a[0]
+                    xml = a[4].get("name") if len(a) > 4 and isinstance(a[4], dict) else None
+                    if xml is None:
+                        continue
+                    want = tab.get(xml)
+                    if want is None:
+                        continue
+                    if want in keyword.kwlist:
+                        want += "_"
+                    if py not in (want, want + "_attr"):
+                        viol.append([c.name, xml, py, want])
+    out["member_name_violations"] = viol
+    # generateDS renames via cleanupName: only ':' '-' '.' -> '_' (none occur); keep identity but report
+    print(json.dumps(out))
 
 
 if __name__ == "__main__":
-    res = translate(os.path.join(REPO, "neuroml", "nml", "nml.py"))
-    out = json.dumps(res)
-    if len(sys.argv) > 1:
-        open(sys.argv[1], "w").write(out)
-    print(out)
+    main()
